@@ -138,6 +138,11 @@ CORPUS = [
                   ru('sep', [al([['p', 'x'], q(g([['p', 's'], ['p', 'x']]), '*')])], params=['x', 's'])], ['axb', 'a,axb+cc', 'a,a,axcc+b+b']),
     ('template-inline', [ru('start', [al([['c', '_par', [tA]], ['c', '_par', [['r', 'w']]]])]), ru('w', [al([tB])]),
                          ru('_par', [al([L('('), ['p', 'x'], L(')')])], params=['x'])], ['(a)(b)']),
+    # a repeated literal and the repeated named terminal it coincides with must not share a helper rule
+    ('literal-vs-named-repeat', [ru('start', [al([['r', 'a'], L('z'), ['r', 'b']])]), ru('a', [al([q(L('a'), '+')])]), ru('b', [al([q(tA, '+')])])], ['aazaa', 'aza']),
+    ('named-vs-literal-repeat', [ru('start', [al([['r', 'b'], L('z'), ['r', 'a']])]), ru('b', [al([q(tA, '+')])]), ru('a', [al([q(L('a'), '+')])])], ['aazaa', 'aza']),
+    ('literal-vs-named-big-repeat', [ru('start', [al([['r', 'a'], L('z'), ['r', 'b']])]), ru('a', [al([q(L('a'), '~', 2, 3)])]), ru('b', [al([q(tA, '~', 2, 3), tX])])], ['aazaax', 'aaazaaax']),
+    ('literal-vs-named-star-group', [ru('start', [al([['r', 'a'], L('z'), ['r', 'b']])]), ru('a', [al([q(g([L('a'), tB]), '*')])]), ru('b', [al([q(g([tA, tB]), '*')])])], ['abzab', 'z', 'ababzab']),
     ('literal-eq-named', [ru('start', [al([L('a'), tA, ['r', 'k']])]), ru('k', [al([L('a'), tA])], mods='!')], ['aaaa']),
     ('underscore-term-bang', [ru('start', [al([tU, tA, ['r', 'k']])]), ru('k', [al([tU, tA])], mods='!')], ['uaua']),
     ('opt-vs-maybe', [ru('start', [al([q(tA, '?'), m([tB]), q(m([tC]), '?') if False else tX])])], ['x', 'ax', 'bx', 'abx']),
